@@ -707,3 +707,46 @@ def _all_finished_test(t, sn: str) -> bool:
     if t.func.id == "all":
         return finished and not neg
     return (not finished) and neg          # not any(<still running>)
+
+
+def helper_thread_scopes(f: Func, flow=None):
+    """the regions of ``f`` during which a context-manager thread runs:  (constructor call, body statements, node)  for
+         with <Thread>(...) [as t]: BODY
+         t = <Thread>(...); t.start(); try: BODY finally: t.stop()          (what CMThread.__enter__ / __exit__ do, written out)
+    The second form is accepted only when start() directly precedes the try in the same block and the finally calls stop() on the
+    same name (stop() sets the stop event and joins, exactly like leaving the with block)."""
+    from ..flow import Flow as _Flow
+    flow = flow or _Flow(f.node)
+    out = []
+    for n in walk_own(f.node):
+        if isinstance(n, ast.With) and len(n.items) == 1:
+            ctx_e = n.items[0].context_expr
+            if isinstance(ctx_e, ast.Name):
+                ctx_e = flow.expand(ctx_e)
+            if isinstance(ctx_e, ast.Call):
+                out.append((ctx_e, n.body, n))
+        if isinstance(n, ast.Try) and n.finalbody and not n.handlers:
+            stops = [st for st in n.finalbody if isinstance(st, ast.Expr) and isinstance(st.value, ast.Call)
+                     and isinstance(st.value.func, ast.Attribute) and st.value.func.attr in ("stop", "__exit__")
+                     and isinstance(st.value.func.value, ast.Name)]
+            if len(stops) != 1 or len(n.finalbody) != 1:
+                continue
+            t = stops[0].value.func.value.id
+            par = getattr(n, "_parent", None)
+            blk = None
+            for fld in ("body", "orelse", "finalbody"):
+                b_ = getattr(par, fld, None)
+                if isinstance(b_, list) and n in b_:
+                    blk = b_
+            if blk is None or blk.index(n) == 0:
+                continue
+            prev = blk[blk.index(n) - 1]
+            started = isinstance(prev, ast.Expr) and isinstance(prev.value, ast.Call) and isinstance(prev.value.func, ast.Attribute) \
+                and prev.value.func.attr in ("start", "__enter__") and isinstance(prev.value.func.value, ast.Name) \
+                and prev.value.func.value.id == t
+            ctor = flow.expand(ast.copy_location(ast.Name(id=t, ctx=ast.Load()), prev)) if started else None
+            binds = [a for a in walk_own(f.node) if isinstance(a, ast.Assign) and len(a.targets) == 1 and isinstance(a.targets[0], ast.Name)
+                     and a.targets[0].id == t]
+            if started and len(binds) == 1 and isinstance(binds[0].value, ast.Call):
+                out.append((binds[0].value, n.body, n))
+    return out
